@@ -33,6 +33,7 @@ CONSTANTS V,        \* PushAny intervals lie within -V..V
           MaxOps,   \* number of operator applications per run
           W,        \* window for unbounded abstract values
           VW,       \* finite ends of half-bounded abstract values lie within -VW..VW
+          MaxStk,   \* stack bound (3 lets $max take three arguments)
           Pushes    \* subset of {"leaf", "const", "any", "window"}: which push actions are on
 
 VARIABLES stk, nops
@@ -58,7 +59,7 @@ BoundEntry(a, S, bk, argS) == [a |-> a, S |-> S, exact |-> TRUE, bk |-> bk, argS
 
 Init == stk = <<>> /\ nops = 0
 
-Push(e) == /\ Len(stk) < 2 /\ nops < MaxOps
+Push(e) == /\ Len(stk) < MaxStk /\ nops < MaxOps
            /\ stk' = Append(stk, e)
            /\ UNCHANGED nops
 
@@ -100,8 +101,16 @@ ChoiceKnown ==
        IN  Replace2(Entry(TChoiceKnown(c, l.a, r.a), IF c THEN l.S ELSE r.S,
                           IF c THEN l.exact ELSE r.exact))
 
-Max1 == /\ Len(stk) >= 1 /\ nops < MaxOps
-        /\ LET x == stk[Len(stk)] IN Replace1(Entry(TMax(<<x.a>>), x.S, x.exact))
+\* $max over the whole stack (1 to MaxStk arguments)
+RECURSIVE MaxOfVals(_)
+MaxOfVals(xs) == IF Len(xs) = 1 THEN xs[1] ELSE LET m == MaxOfVals(Tail(xs)) IN IF xs[1] >= m THEN xs[1] ELSE m
+RECURSIVE Tuples(_, _)
+Tuples(es, j) == IF j > Len(es) THEN {<<>>} ELSE {<<x>> \o t : x \in es[j].S, t \in Tuples(es, j + 1)}
+MaxN == /\ Len(stk) >= 1 /\ nops < MaxOps
+        /\ stk' = <<Entry(TMax([j \in 1..Len(stk) |-> stk[j].a]),
+                          {MaxOfVals(t) : t \in Tuples(stk, 1)},
+                          \A j \in 1..Len(stk) : stk[j].exact)>>
+        /\ nops' = nops + 1
 
 \* $upper_bound(x) / $lower_bound(x) are the constants max / min of x's annotation
 Upper == /\ Len(stk) >= 1 /\ nops < MaxOps
@@ -114,7 +123,7 @@ Lower == /\ Len(stk) >= 1 /\ nops < MaxOps
                 /\ Replace1(BoundEntry(TLower(x.a), {x.a.min.v}, "lb", x.S))
 
 Next == \/ PushLeaf \/ PushConst \/ PushAny \/ PushWindow
-        \/ Add \/ Sub \/ Mul \/ Max2 \/ Max1 \/ ChoiceFree \/ ChoiceKnown \/ Upper \/ Lower
+        \/ Add \/ Sub \/ Mul \/ Max2 \/ MaxN \/ ChoiceFree \/ ChoiceKnown \/ Upper \/ Lower
 
 -----------------------------------------------------------------------------
 SoundInv == \A i \in 1..Len(stk) : Sound(stk[i].a, stk[i].S)
@@ -129,12 +138,6 @@ SingletonInv == \A i \in 1..Len(stk) :
 BoundInv == \A i \in 1..Len(stk) :
               /\ stk[i].bk = "ub" => \A v \in stk[i].argS : v <= stk[i].a.rem
               /\ stk[i].bk = "lb" => \A v \in stk[i].argS : v >= stk[i].a.rem
-
-\* the n-ary $max is the fold of the binary one (what the machine applies)
-ASSUME \A a \in {ConstAbs(1), LeafAbs("UInt", 2), Abs(Fin(-4), Fin(8), 4, 0)} :
-         \A b \in {ConstAbs(3), LeafAbs("Int", 3), Abs(Fin(1), Fin(7), 6, 1)} :
-           \A c \in {ConstAbs(-2), LeafAbs("Bcd", 4)} :
-             TMax(<<a, b, c>>) = TMax2(a, TMax2(b, c))
 
 \* examples from the documentation / proof
 ASSUME TMul(Abs(Fin(3), Fin(33), 5, 3), ConstAbs(4)) = Abs(Fin(12), Fin(132), 20, 12)
